@@ -9,14 +9,19 @@
 //!   paths mozraw server:<hex>
 //!   paths join unix root:<hex> rel:<hex>
 //!   paths rooted rel:<hex>
+//!   paths url <sym|bin|extra|codeinfo> base:<hex> code:.. debug:.. did:.. cid:..
+//!                                    (the real HttpSymbolSupplier against a loopback server: path of the request)
+//!   paths urlref rel:<hex>           (oracle only: what the pre-fix `Url::join(rel)` would do — documentation)
 //!   paths lowercase-table            (oracle only: the fact the model's ASCII lower-casing rests on)
 //!   paths supplier                   (oracle only: SimpleSymbolSupplier over a temp dir with bait files)
 
 use crate::common::*;
 use breakpad_symbols::{
     binary_lookup, breakpad_sym_lookup, code_info_breakpad_sym_lookup, extra_debuginfo_lookup, lookup,
-    moz_lookup, FileKind, FileLookup, SimpleModule, SimpleSymbolSupplier, SymbolSupplier,
+    moz_lookup, FileKind, FileLookup, HttpSymbolSupplier, SimpleModule, SimpleSymbolSupplier, SymbolSupplier,
 };
+use std::io::{Read, Write};
+use std::sync::{Arc, Mutex};
 use debugid::{CodeId, DebugId};
 use std::path::{Component, Path};
 
@@ -210,6 +215,191 @@ fn url_join_escapes(rel: &str) -> Option<(&'static str, String)> {
             }
         }
     }
+}
+
+/// Percent-decode an ASCII path segment.
+fn pct_decode(seg: &str) -> Vec<u8> {
+    let b = seg.as_bytes();
+    let mut out = vec![];
+    let mut i = 0;
+    while i < b.len() {
+        if b[i] == b'%' && i + 2 < b.len() {
+            let h = |c: u8| (c as char).to_digit(16);
+            if let (Some(x), Some(y)) = (h(b[i + 1]), h(b[i + 2])) {
+                out.push((x * 16 + y) as u8);
+                i += 3;
+                continue;
+            }
+        }
+        out.push(b[i]);
+        i += 1;
+    }
+    out
+}
+
+/// Run `f` against a loopback HTTP server that answers 404 to everything; returns the request
+/// targets (`/path?query`) it received, in order.
+fn with_server<F: FnOnce(&str)>(base_path: &str, f: F) -> Vec<String> {
+    let listener = std::net::TcpListener::bind("127.0.0.1:0").expect("bind loopback");
+    let port = listener.local_addr().unwrap().port();
+    let seen: Arc<Mutex<Vec<String>>> = Arc::new(Mutex::new(vec![]));
+    let seen2 = seen.clone();
+    let th = std::thread::spawn(move || {
+        for conn in listener.incoming() {
+            let Ok(mut conn) = conn else { break };
+            let _ = conn.set_read_timeout(Some(std::time::Duration::from_secs(5)));
+            let mut buf = vec![];
+            let mut tmp = [0u8; 4096];
+            while !buf.windows(4).any(|w| w == b"\r\n\r\n") {
+                match conn.read(&mut tmp) {
+                    Ok(0) | Err(_) => break,
+                    Ok(n) => buf.extend_from_slice(&tmp[..n]),
+                }
+            }
+            let head = String::from_utf8_lossy(&buf).to_string();
+            let line = head.lines().next().unwrap_or("").to_string();
+            let target = line.split(' ').nth(1).unwrap_or("").to_string();
+            let _ = conn.write_all(b"HTTP/1.1 404 Not Found\r\nContent-Length: 0\r\nConnection: close\r\n\r\n");
+            if target == "/__stop" {
+                break;
+            }
+            seen2.lock().unwrap().push(target);
+        }
+    });
+    let base = format!("http://127.0.0.1:{port}{base_path}");
+    f(&base);
+    if let Ok(mut c) = std::net::TcpStream::connect(("127.0.0.1", port)) {
+        let _ = c.write_all(b"GET /__stop HTTP/1.1\r\nHost: x\r\n\r\n");
+        let mut sink = vec![];
+        let _ = c.read_to_end(&mut sink);
+    }
+    let _ = th.join();
+    let v = seen.lock().unwrap().clone();
+    v
+}
+
+/// The consumers of `server_rel`: the real `HttpSymbolSupplier` is pointed at a loopback server
+/// below `base_path`; the path of the request it sends is the observation.
+fn exec_url(op: &str, base_path: &str, c: &LookupCase) -> ImplResult {
+    let mut res = ImplResult::default();
+    res.tags.push(format!("op:url-{op}"));
+    let m = c.module();
+    if op != "codeinfo" && (c.did == Did::None || c.debug.is_none()) {
+        // without debug info `locate_symbols` takes the code-info route (op `codeinfo`), and the
+        // file lookups have nothing to ask for
+        res.out = "none".into();
+        return res;
+    }
+    if op == "codeinfo" && (c.did != Did::None && c.debug.is_some()) {
+        res.out = "bad-op".into();
+        return res;
+    }
+    let expect_request = match op {
+        "sym" => breakpad_sym_lookup(&m).is_some(),
+        "bin" => binary_lookup(&m).is_some(),
+        "extra" => extra_debuginfo_lookup(&m).is_some(),
+        _ => code_info_breakpad_sym_lookup(&m).is_some(),
+    };
+    let r = catch(|| {
+        with_server(base_path, |base| {
+            let tmp = tempfile::tempdir().expect("tempdir");
+            let cache = tmp.path().join("cache");
+            let t2 = tmp.path().join("tmp");
+            std::fs::create_dir_all(&cache).unwrap();
+            std::fs::create_dir_all(&t2).unwrap();
+            let rt = tokio::runtime::Builder::new_current_thread().enable_all().build().unwrap();
+            rt.block_on(async {
+                let sup = HttpSymbolSupplier::new(
+                    vec![base.to_string()],
+                    cache.clone(),
+                    t2.clone(),
+                    vec![],
+                    std::time::Duration::from_secs(5),
+                );
+                match op {
+                    "sym" | "codeinfo" => {
+                        let _ = sup.locate_symbols(&m).await;
+                    }
+                    "bin" => {
+                        let _ = sup.locate_file(&m, FileKind::Binary).await;
+                    }
+                    _ => {
+                        let _ = sup.locate_file(&m, FileKind::ExtraDebugInfo).await;
+                    }
+                }
+            });
+            // nothing may have been written outside the cache/tmp directories (404: nothing at all)
+        })
+    });
+    match r {
+        Err(msg) => {
+            res.out = "PANIC".into();
+            res.oracle.push(("url-consumer-panics".into(), msg));
+        }
+        Ok(targets) => {
+            // `sym` with complete debug info sends exactly the symbol request; `codeinfo` cases have no
+            // debug info, so the only request is the code-info lookup; bin/extra: the fetch_lookup request
+            let first = targets.first().cloned();
+            match first {
+                None => {
+                    res.out = "none".into();
+                    if expect_request {
+                        // the lookup exists but no request reached the server's origin: either the join
+                        // refused it (model says `none` too) or it went somewhere else (model differs)
+                        res.tags.push("url:no-request".into());
+                    }
+                }
+                Some(t) => {
+                    let path = t.split(['?', '#']).next().unwrap_or("").to_string();
+                    res.out = format!("path:{}", hx(&path));
+                    res.nontrivial = true;
+                    let norm = if base_path.ends_with('/') { base_path.to_string() } else { format!("{base_path}/") };
+                    let dir = norm.as_str();
+                    match path.strip_prefix(dir) {
+                        None => res.oracle.push((
+                            "url-request-outside-base-path".into(),
+                            format!("base {base_path:?}, request {t:?}"),
+                        )),
+                        Some(tail) => {
+                            for seg in tail.split(['/', '\\']) {
+                                let d = pct_decode(seg);
+                                if d == b"." || d == b".." {
+                                    res.oracle.push((
+                                        "url-request-dot-segment".into(),
+                                        format!("base {base_path:?}, request {t:?}: segment {seg:?}"),
+                                    ));
+                                }
+                            }
+                            if tail.contains('\\') {
+                                res.oracle.push(("url-request-backslash".into(), format!("request {t:?}")));
+                            }
+                        }
+                    }
+                    if !expect_request {
+                        res.oracle.push(("url-request-without-lookup".into(), format!("request {t:?}")));
+                    }
+                }
+            }
+        }
+    }
+    res
+}
+
+/// Documentation of the repaired defect: what `Url::join(rel)` (the pre-fix consumer) does with a
+/// lookup path. Not an obligation of the current code; the result is only tagged.
+fn exec_urlref(rel: &str) -> ImplResult {
+    let mut res = ImplResult::default();
+    res.tags.push("op:urlref".into());
+    match url_join_escapes(rel) {
+        None => res.out = "inside-or-error".into(),
+        Some((class, d)) => {
+            res.out = format!("{class}");
+            res.tags.push(format!("old-url-join:{class}"));
+            let _ = d;
+        }
+    }
+    res.nontrivial = true;
+    res
 }
 
 fn check_rel(res: &mut ImplResult, which: &str, rel: &str, is_server: bool) {
@@ -715,6 +905,59 @@ impl Engine for Paths {
                 emit(format!("paths join unix root:{} rel:{}", hx(root), hx(s)));
             }
         }
+        // (5b) the HTTP consumer: directed hazards of URL-reference parsing, every string of length <= 2, random
+        let hazards = [
+            "a.pdb", "aa:", "http:evil.com", "https:evil.com", "\0", " ", " x", "x ", ".\t.", "\t", "%2e%2e", ".%2E", "%2e",
+            "a?b", "a#b", "?", "#", "..?x", "a%20b", "é", "日本.pdb", "a b", "a:b", "C:", "@", "a@b:c", "~", "*", "|", "<>",
+            "\"", "\u{7f}", "\u{80}", "\u{feff}", "a;b=c", "[", "]", "^", "`", "{}", "+", "'", "x.dll", "X.DLL", "..", ".",
+            "", "a/", "\\", "a\\b", "...", ".. ", " ..", ".\n.", "\r", "%", "%%", "%2", "%zz", "%2F", "%5c..",
+        ];
+        let url_case = |op: &str, base: &str, c: &LookupCase| -> String {
+            let l = c.render();
+            let rest = l.splitn(3, ' ').nth(2).unwrap().to_string();
+            format!("paths url {op} base:{} {rest}", hx(base))
+        };
+        for h in hazards {
+            for base in ["/base/dir/", "/", "/base/file"] {
+                for op in ["sym", "bin", "extra", "codeinfo"] {
+                    let c = match op {
+                        "codeinfo" => LookupCase { op: op.into(), code: h.into(), debug: None, did: Did::None, cid: Some("5A0B1C2D1f000".into()) },
+                        "bin" => LookupCase { op: op.into(), code: h.into(), debug: Some("d.pdb".into()), did: D_UUID, cid: Some("".into()) },
+                        _ => LookupCase { op: op.into(), code: "c.dll".into(), debug: Some(h.into()), did: D_UUID, cid: Some("ab".into()) },
+                    };
+                    emit(url_case(op, base, &c));
+                }
+            }
+            emit(format!("paths urlref rel:{}", hx(&format!("{h}/ID/{h}.sym"))));
+            emit(format!("paths urlref rel:{}", hx(&format!("{h}//{h}"))));
+        }
+        let url_alpha: &[char] = &['a', '.', ':', '\0', 'é', '%', '\t', ' ', '?', '2', 'e'];
+        for s in all_strings(url_alpha, if thorough { 3 } else { 2 }) {
+            let c = LookupCase { op: "extra".into(), code: "c".into(), debug: Some(s.clone()), did: Did::Pdb20([1, 2, 3, 4], 1), cid: None };
+            emit(url_case("extra", "/base/dir/", &c));
+            let c = LookupCase { op: "bin".into(), code: s.clone(), debug: Some("d".into()), did: Did::Pdb20([1, 2, 3, 4], 1), cid: Some("".into()) };
+            emit(url_case("bin", "/b/", &c));
+        }
+        for i in 0..(if thorough { 4000 } else { 400 }) {
+            let op = *rng.pick(&["sym", "bin", "extra", "codeinfo"]);
+            let name = random_name(rng, if i % 10 == 0 { 60 } else { 5 });
+            let other = random_name(rng, 4);
+            let c = match op {
+                "codeinfo" => LookupCase { op: op.into(), code: name, debug: None, did: Did::None, cid: random_cid(rng, false).or(Some("1".into())) },
+                "bin" => LookupCase { op: op.into(), code: name, debug: Some(other), did: D_UUID, cid: random_cid(rng, false).or(Some("".into())) },
+                _ => {
+                    let mut did = random_did(rng);
+                    if did == Did::None {
+                        did = D_UUID;
+                    }
+                    LookupCase { op: op.into(), code: other, debug: Some(name), did, cid: random_cid(rng, false) }
+                }
+            };
+            let base = *rng.pick(&["/base/dir/", "/", "/x/y", "/a%20b/"]);
+            emit(url_case(op, base, &c));
+        }
+        // the join function of the model on its own (no implementation counterpart is public): covered by `url` above
+
         // (6) random long names and identifiers
         let n = if thorough { 400_000 } else { 40_000 };
         for i in 0..n {
@@ -752,8 +995,19 @@ impl Engine for Paths {
     }
 
     fn model_request(&self, case: &str) -> Option<String> {
-        if case == "paths lowercase-table" || case == "paths supplier" {
+        if case == "paths lowercase-table" || case == "paths supplier" || case.starts_with("paths urlref ") {
             None
+        } else if case.starts_with("paths url ") {
+            // `HttpSymbolSupplier::new` appends `/` to a base URL that does not end with one
+            let f: Vec<&str> = case.split(' ').collect();
+            let base = f.get(3).and_then(|b| b.strip_prefix("base:")).and_then(unhx)?;
+            if base.ends_with('/') {
+                Some(case.to_string())
+            } else {
+                let mut g: Vec<String> = f.iter().map(|x| x.to_string()).collect();
+                g[3] = format!("base:{}", hx(&format!("{base}/")));
+                Some(g.join(" "))
+            }
         } else {
             Some(case.to_string())
         }
@@ -767,6 +1021,22 @@ impl Engine for Paths {
             return bad;
         }
         match f[1] {
+            "url" if f.len() == 8 => {
+                let Some(base) = f[3].strip_prefix("base:").and_then(unhx) else { return bad };
+                let mut g: Vec<&str> = vec![f[0], f[2]];
+                g.extend(&f[4..]);
+                if !["sym", "bin", "extra", "codeinfo"].contains(&f[2]) {
+                    return bad;
+                }
+                match LookupCase::parse(&g) {
+                    Some(c) => exec_url(f[2], &base, &c),
+                    None => bad,
+                }
+            }
+            "urlref" if f.len() == 3 => {
+                let Some(s) = f[2].strip_prefix("rel:").and_then(unhx) else { return bad };
+                exec_urlref(&s)
+            }
             "lowercase-table" if f.len() == 2 => exec_lowercase_table(),
             "supplier" if f.len() == 2 => exec_supplier(),
             "mozraw" if f.len() == 3 => {
